@@ -870,6 +870,11 @@ def _compare_index(c, r, spec, viol, stats):
         except Exception as e:  # noqa
             bad("reader.term_info:exception:" + type(e).__name__, "term_info of %r" % text, repr(e)[:200],
                 "term_info raised")
+    # term statistics are reads.  Asking again — the same reader a second and a third time, then the
+    # segment's own (leaf) reader after the composite reader, then the composite reader once more —
+    # must give the aggregates of the same posting lists every time.  Terms of `f` (few terms, usually in
+    # every segment) and of `id` (every term in exactly one document, hence in exactly one segment).
+    _repeat_term_info(c, r, posts, docs, real, orig, bad, stats)
     # the other scorable fields: statistics of their one term `x` are aggregates of *their own* lengths
     if codec != "plain":
         for name in c.get("aux", []):
@@ -1006,6 +1011,72 @@ def _compare_index(c, r, spec, viol, stats):
         if (got or 0) != exp:
             bad("reader.doc_field_length", exp, got, "field length of doc %d" % dn)
             break
+
+
+def _ti_tuple(ti):
+    return ("%d" % ti.doc_frequency(), rat(ti.weight()), rat(ti.max_weight()), str(ti.min_id()), str(ti.max_id()))
+
+
+TI_NAMES = ["doc_frequency", "weight", "max_weight", "min_id", "max_id"]
+
+
+def _repeat_term_info(c, r, posts, docs, real, orig, bad, stats):
+    """term_info() asked repeatedly and through different access paths of the same reader object:
+    (1) composite reader, three times in a row; (2) every leaf reader (ids relative to the segment), twice;
+    (3) the composite reader again.  Expected = aggregates of the spec posting list restricted to the
+    documents of the (sub-)reader."""
+    # spec: (field, text) -> [(real docnum, weight)]
+    want = {}
+    for th, exp_posts in posts.items():
+        want[("f", bytes.fromhex(th).decode("utf-8"))] = sorted((real[int(p[0])], _frac(p[2])) for p in exp_posts)
+    for dn, o in orig.items():
+        want[("id", u"%d" % o)] = [(dn, Fraction(1))]
+    try:
+        leaves = list(r.leaf_readers())
+    except Exception as e:  # noqa
+        bad("reader.leaf_readers:exception:" + type(e).__name__, "leaf readers", repr(e)[:200], "leaf_readers raised")
+        return
+    stats["ti-repeat-leaves=%d" % min(len(leaves), 4)] = 1
+
+    def check(reader, lo, hi, path, nth):
+        for (fn, text), plist in sorted(want.items()):
+            sub = [(dn - lo, w) for dn, w in plist if lo <= dn < hi]
+            try:
+                if not sub:
+                    continue
+                got = _ti_tuple(reader.term_info(fn, text))
+            except Exception as e:  # noqa
+                bad("reader.term_info:exception:%s:%s" % (type(e).__name__, path), "term_info of %s:%r" % (fn, text),
+                    repr(e)[:200], "term_info raised (%s, call #%d)" % (path, nth))
+                return False
+            exp = ("%d" % len(sub), rat(sum(w for _, w in sub)), rat(max(w for _, w in sub)),
+                   "%d" % sub[0][0], "%d" % sub[-1][0])
+            if fn == "id":       # the key field: only frequency and first / last id are predicted
+                exp, got = (exp[0],) + exp[3:], (got[0],) + got[3:]
+                names = ["doc_frequency", "min_id", "max_id"]
+            else:
+                names = TI_NAMES
+            for name, a, b in zip(names, exp, got):
+                if a != b:
+                    sig = "reader.term_info:%s:%s" % (name, path)
+                    if c["fmt"] == "characterboosts" and c["fb"] != 1.0 and name in ("weight", "max_weight"):
+                        sig = "CharacterBoosts.word_values:weight-ignores-field_boost"
+                    bad(sig, a, b, "term statistics of %s:%r, %s, call #%d on the same reader object "
+                        "(documents %d..%d of the index)" % (fn, text, path, nth, lo, hi - 1))
+                    return False
+            stats["ti-repeat-reads"] = stats.get("ti-repeat-reads", 0) + 1
+        return True
+
+    total = r.doc_count_all()
+    for nth in (2, 3):               # the main comparison above was call #1 for the terms of `f`
+        if not check(r, 0, total, "repeated-call", nth):
+            return
+    if len(leaves) > 1 or leaves[0][0] is not r:
+        for lr, off in leaves:
+            for nth in (1, 2):
+                if not check(lr, off, off + lr.doc_count_all(), "leaf-reader-after-composite", nth):
+                    return
+        check(r, 0, total, "composite-after-leaf-readers", 4)
 
 
 def _frac(s):
